@@ -86,6 +86,11 @@ class TupleCoord(recordclass.RecordClass, _IterableStub):
             return other == self.data()
         return other.data() == self.data()
 
+    def __ne__(self, other):
+        # The inherited `__ne__` doesn't know about our `__eq__`, a coord would be
+        # both `==` and `!=` to the equivalent tuple.
+        return not self.__eq__(other)
+
     def __gt__(self, other):
         return all(x > y for x, y in zip(self, other))
 
@@ -317,7 +322,11 @@ class JankStringyBytes(bytes):
         return super().__eq__(other)
 
     def __ne__(self, other):
-        return not self.__eq__(other)
+        equal = self.__eq__(other)
+        if equal is NotImplemented:
+            # Not comparable (`None`, numbers), let Python fall back to "is not"
+            return equal
+        return not equal
 
     def __contains__(self, item):
         if isinstance(item, str):
